@@ -1,6 +1,7 @@
 import SqlObjVerif.Lemmas.Uri
 import SqlObjVerif.Lemmas.UriXBuild
 import SqlObjVerif.Lemmas.UriXChain
+import SqlObjVerif.Lemmas.UriXCache
 /-!
 # C18 — connection URIs round-trip: parse(build(x)) = x, the same database is opened
 
@@ -288,6 +289,26 @@ theorem C18_translated_sqlite_same_database (hos : osName ≠ [110, 116]) (reg :
         connectionForURIX (uriIface osName (sqliteCm2 osName cv reg) cv) o u (.bool false) ps =
           remember o u' (cv cls [] ((filenameKw, .str fn) :: strDict ps))) :=
   sqlite_roundtrip_opens osName hos cv reg cls hcls hreg fn hv hd hx ps ok o
+
+/-- the translated `connectionForURI`, with the opener it leaves behind read back as an `Opener`:
+    `(outcome, opener afterwards)` — by `C18_translated_connectionForURI_eq_model` and `connectionForURI_eq_O`. -/
+theorem C18_translated_connectionForURI_state (o : Opener) (uri : Str) (oldUri : PyUri.Val)
+    (ps : List (Str × Str)) (hold : PyUri.truthy oldUri = false) :
+    connectionForURIX (uriIface osName cm cv) o uri oldUri ps =
+      ((connectionForURIO (uriIface osName cm cv) o uri ps).1,
+       (connectionForURIO (uriIface osName cm cv) o uri ps).2.map openerObj) := by
+  rw [connectionForURI_translated osName cm cv o uri oldUri ps hold, connectionForURI_eq_O]
+
+/-- THE PER-URI CACHE NEVER FORGETS (the same database is opened, over histories): if
+    `connectionForURI(uri, **ps)` returned the connection `c`, then after ANY history of further calls — any number
+    of other URIs, any parameters, successful or raising — the same call returns the very same `c` and leaves the
+    opener unchanged.  (For `sqlite:/:memory:` this identity IS "the same database".) -/
+theorem C18_cache_same_connection_after_any_history (o o1 o2 : Opener) (uri : Str) (ps : List (Str × Str))
+    (c : PyUri.Val) (calls : List (Str × List (Str × Str)))
+    (h1 : connectionForURIO (uriIface osName cm cv) o uri ps = (.ret c, some o1))
+    (hr : runCalls (uriIface osName cm cv) o1 calls = some o2) :
+    connectionForURIO (uriIface osName cm cv) o2 uri ps = (.ret c, some o2) :=
+  same_connection_after_history _ o o1 o2 uri ps c calls h1 hr
 
 end translated
 
